@@ -179,23 +179,24 @@ Proof. vm_compute. reflexivity. Qed.
 
 (* vertex matcher: what `distance >= tolerance` means against the SI reading of the tolerance *)
 Lemma vertex_cmp_beyond : forall t u d, 0 <= d -> beyond t u d ->
-  Qle_bool t (convert_distance QN Meters u d) = true.
+  Qltb t (convert_distance QN Meters u d) = true.
 Proof.
-  intros t u d Hd Hb. apply Qle_bool_iff. rewrite convert_distance_factor'.
+  intros t u d Hd Hb. unfold Qltb. apply negb_true_iff, qle_bool_false_iff. rewrite convert_distance_factor'.
   destruct (unit_facts u) as [Hk [_ [Hsi [H1 _]]]]. unfold beyond, tol_m in Hb.
   destruct (Qlt_le_dec t 0) as [Hneg | Hpos].
-  - apply Qlt_le_weak. eapply Qlt_le_trans; [exact Hneg|]. apply Qmult_le_0_compat; [exact Hd | apply Qlt_le_weak, Hk].
-  - (* t <= t * (k * si * (1+band)) <= d * k *)
-    apply Qle_trans with (t * (k_dist Meters u * (si_m u * (1 + unit_band)))).
+  - eapply Qlt_le_trans; [exact Hneg|]. apply Qmult_le_0_compat; [exact Hd | apply Qlt_le_weak, Hk].
+  - (* t <= t * (k * si * (1+band)) < d * k *)
+    apply Qle_lt_trans with (t * (k_dist Meters u * (si_m u * (1 + unit_band)))).
     + rewrite <- (Qmult_1_r t) at 1. apply qmult_le_l; assumption.
     + setoid_replace (t * (k_dist Meters u * (si_m u * (1 + unit_band))))
         with (t * si_m u * (1 + unit_band) * k_dist Meters u) by ring.
-      apply Qmult_le_compat_r; [apply Qlt_le_weak; exact Hb | apply Qlt_le_weak, Hk].
+      apply Qmult_lt_compat_r; assumption.
 Qed.
 Lemma vertex_cmp_within : forall t u d, 0 <= d -> within t u d ->
-  Qle_bool t (convert_distance QN Meters u d) = false.
+  Qltb t (convert_distance QN Meters u d) = false.
 Proof.
-  intros t u d Hd Hw. apply qle_bool_false_iff. rewrite convert_distance_factor'.
+  intros t u d Hd Hw. unfold Qltb. apply negb_false_iff, Qle_bool_iff. apply Qlt_le_weak.
+  rewrite convert_distance_factor'.
   destruct (unit_facts u) as [Hk [_ [Hsi [_ [H2 _]]]]]. unfold within, tol_m in Hw.
   assert (Hb : 0 < 1 - unit_band) by (vm_compute; reflexivity).
   assert (Ht : 0 < t).
@@ -268,7 +269,7 @@ Section VertexProofs.
     intros p. unfold MM.match_vertex. destruct (nn p vs) as [b|]; [|right; reflexivity].
     unfold validate_tolerance. destruct tol as [[t u]|]; [|left; exists b; reflexivity].
     unfold hav. destruct (_ && _ && _ && _); cbn [bind]; [|right; reflexivity].
-    destruct (leb t _); cbn [bind]; [right; reflexivity | left; exists b; reflexivity].
+    destruct (ltb t _); cbn [bind]; [right; reflexivity | left; exists b; reflexivity].
   Qed.
 End VertexProofs.
 
@@ -301,8 +302,8 @@ Section VertexTolerance.
     intros p v H Hb. unfold MM.match_vertex in H. destruct (nn p vs) as [b|]; [|discriminate].
     unfold validate_tolerance, hav in H.
     destruct (_ && _ && _ && _); cbn [bind] in H; [|discriminate].
-    cbn [leb QN] in H.
-    destruct (Qle_bool t (convert_distance QN Meters u (gc p (cpt b)))) eqn:E; cbn [bind] in H; [discriminate|].
+    cbn [ltb QN] in H.
+    destruct (Qltb t (convert_distance QN Meters u (gc p (cpt b)))) eqn:E; cbn [bind] in H; [discriminate|].
     injection H as <-. rewrite (vertex_cmp_beyond t u _ (gc_nonneg _ _) Hb) in E. discriminate.
   Qed.
   (* nearest candidate(s) beyond the tolerance: an error *)
@@ -324,7 +325,7 @@ Section VertexTolerance.
     exists b. split; [|exact Hs]. unfold validate_tolerance, hav.
     pose proof (Hvs b (proj1 Hs)) as Hb. unfold in_range in Hp, Hb.
     apply andb_prop in Hp. destruct Hp as [Hp1 Hp2]. apply andb_prop in Hb. destruct Hb as [Hb1 Hb2].
-    rewrite Hp1, Hp2, Hb1, Hb2. cbn [andb bind leb QN].
+    rewrite Hp1, Hp2, Hb1, Hb2. cbn [andb bind ltb QN].
     rewrite (vertex_cmp_within t u _ (gc_nonneg _ _) (Hall b Hs)). reflexivity.
   Qed.
 End VertexTolerance.
@@ -514,3 +515,62 @@ Section EdgeTolerance.
     rewrite (edge_cmp_within t u _ (gc_nonneg _ _) (Hall e Hmin)). reflexivity.
   Qed.
 End EdgeTolerance.
+
+(* ------------------------------------------------------------------ the convention AT the tolerance *)
+(* one inclusive rule for both matchers, exact when the tolerance is in Meters (no conversion factor): a
+   candidate is accepted iff its great-circle distance is <= the tolerance *)
+Lemma k_meters_meters : k_dist Meters Meters == 1.
+Proof. vm_compute. reflexivity. Qed.
+Lemma qle_bool_compat_l : forall a b t : Q, a == b -> Qle_bool a t = Qle_bool b t.
+Proof.
+  intros a b t H. destruct (Qle_bool b t) eqn:E.
+  - apply Qle_bool_iff. rewrite H. apply Qle_bool_iff. exact E.
+  - destruct (Qle_bool a t) eqn:E2; [|reflexivity]. apply Qle_bool_iff in E2. rewrite H in E2.
+    apply Qle_bool_iff in E2. congruence.
+Qed.
+Lemma qle_bool_compat_r : forall a t t' : Q, t == t' -> Qle_bool a t = Qle_bool a t'.
+Proof.
+  intros a t t' H. destruct (Qle_bool a t') eqn:E.
+  - apply Qle_bool_iff. rewrite H. apply Qle_bool_iff. exact E.
+  - destruct (Qle_bool a t) eqn:E2; [|reflexivity]. apply Qle_bool_iff in E2. rewrite H in E2.
+    apply Qle_bool_iff in E2. congruence.
+Qed.
+Lemma convert_meters_id : forall x : Q, convert_distance QN Meters Meters x == x.
+Proof. intros x. rewrite convert_distance_factor', k_meters_meters. ring. Qed.
+
+Lemma validate_tolerance_meters : forall (gc : point -> point -> Q) src dst t,
+  in_range src = true -> in_range dst = true ->
+  validate_tolerance QN gc src dst (Some (t, Meters))
+  = if Qle_bool (gc src dst) t then Ok tt else Err e_failed.
+Proof.
+  intros gc src dst t Hs Hd. unfold validate_tolerance, hav. unfold in_range in Hs, Hd.
+  apply andb_prop in Hs. destruct Hs as [Hs1 Hs2]. apply andb_prop in Hd. destruct Hd as [Hd1 Hd2].
+  rewrite Hs1, Hs2, Hd1, Hd2. cbn [andb bind ltb QN]. unfold Qltb.
+  rewrite (qle_bool_compat_l _ _ t (convert_meters_id (gc src dst))).
+  destruct (Qle_bool (gc src dst) t); reflexivity.
+Qed.
+Lemma within_tolerance_meters : forall (d t : Q),
+  within_tolerance QN (Some (t, Meters)) d = Qle_bool d t.
+Proof.
+  intros d t. cbn [within_tolerance leb QN]. apply qle_bool_compat_r. apply convert_meters_id.
+Qed.
+(* in particular, tolerance = distance (and tolerance 0 exactly on a candidate) is a match in both matchers *)
+Lemma match_vertex_at_tolerance : forall (gc : point -> point -> Q) nn vs p v,
+  nn p vs = Some v -> in_range p = true -> in_range (cpt v) = true ->
+  match_vertex QN gc nn vs (Some (gc p (cpt v), Meters)) p = Ok v.
+Proof.
+  intros gc nn vs p v Hnn Hp Hv. unfold match_vertex. rewrite Hnn.
+  rewrite (validate_tolerance_meters gc p (cpt v) _ Hp Hv).
+  assert (H : Qle_bool (gc p (cpt v)) (gc p (cpt v)) = true) by (apply Qle_bool_iff, Qle_refl).
+  rewrite H. reflexivity.
+Qed.
+Lemma decide_edge_at_tolerance : forall (gc : point -> point -> Q) p c,
+  in_range p = true -> in_range (cpt c) = true ->
+  decide QN gc (Some (gc p (cpt c), Meters)) p c = Ok (Some c).
+Proof.
+  intros gc p c Hp Hc. unfold decide, hav. unfold in_range in Hp, Hc.
+  apply andb_prop in Hp. destruct Hp as [Hp1 Hp2]. apply andb_prop in Hc. destruct Hc as [Hc1 Hc2].
+  rewrite Hp1, Hp2, Hc1, Hc2. cbn [andb bind]. rewrite within_tolerance_meters.
+  assert (H : Qle_bool (gc p (cpt c)) (gc p (cpt c)) = true) by (apply Qle_bool_iff, Qle_refl).
+  rewrite H. reflexivity.
+Qed.
